@@ -285,7 +285,14 @@ func (s MinPriorityCoinSelector) CoinSelect(targetValue bchutil.Amount, coins []
 				if newMaxInputs > numLow {
 					newMaxInputs = numLow
 				}
-				newMinAvgValueAge := ((s.MinAvgValueAgePerInput * int64(allHigh.Num()+numLow)) - allHigh.TotalValueAge()) / int64(numLow)
+				// Round the average required of the low priority coins up:
+				// truncating it would accept a combined selection whose
+				// average is below MinAvgValueAgePerInput.
+				requiredValueAge := (s.MinAvgValueAgePerInput * int64(allHigh.Num()+numLow)) - allHigh.TotalValueAge()
+				newMinAvgValueAge := requiredValueAge / int64(numLow)
+				if requiredValueAge > 0 && requiredValueAge%int64(numLow) != 0 {
+					newMinAvgValueAge++
+				}
 
 				// find the minimum priority that can be added to set
 				lowSelect, err := (&MinPriorityCoinSelector{
